@@ -114,15 +114,28 @@ def check(prop, tier):
                 n_known += 1
             else:
                 unmatched.append((run, v))
-        # Violations counted but not listed. The runner lists at most one record per (case, kind) and at most `cap` records per worker.
-        # If every listed record is a known finding and no cap can have been reached, the unlisted ones are repetitions of listed
-        # (case, kind) pairs (e.g. the same witness failing under several configurations) and are attributed to the same findings.
-        # Otherwise their classification is unknown and they are reported.
+        # Violations counted but not listed (the runner lists one record per (case, kind) and caps the list). The drivers count
+        # violations per kind ("violations:<kind>"); a kind whose listed records are ALL known findings (and at least one is listed)
+        # is a fully classified kind and its unlisted repetitions are attributed to the same findings. Any other remainder is of
+        # unknown classification and is reported.
         extra = total_v - len(listed)
-        if extra > 0 and len(listed) > n_known:
-            pass  # already failing through unmatched
-        elif extra > 0 and len(listed) >= 40:
-            unmatched.append((run, {"case": None, "kind": "unlisted-violations", "count": extra, "_space": run["name"]}))
+        if extra > 0 and len(listed) == n_known:
+            per_kind_listed, per_kind_known = {}, {}
+            for v in listed:
+                k = v.get("kind")
+                per_kind_listed[k] = per_kind_listed.get(k, 0) + 1
+                if any(kf_match(e, prop, v) for e in kfs):
+                    per_kind_known[k] = per_kind_known.get(k, 0) + 1
+            unexplained = 0
+            kinds_counted = {k[len("violations:"):]: n for k, n in cnt.items() if k.startswith("violations:")}
+            if kinds_counted:
+                for k, n in kinds_counted.items():
+                    if n > per_kind_listed.get(k, 0) and not (per_kind_listed.get(k, 0) > 0 and per_kind_known.get(k, 0) == per_kind_listed.get(k, 0)):
+                        unexplained += n - per_kind_listed.get(k, 0)
+            elif len(listed) >= 40:
+                unexplained = extra
+            if unexplained > 0:
+                unmatched.append((run, {"case": None, "kind": "unlisted-violations", "count": unexplained, "_space": run["name"]}))
         if cnt.get("deadline_skipped", 0):
             deadline_hit = True
     wall = time.time() - t0
